@@ -39,7 +39,7 @@ PROPS["C13"] = dict(
     design_ref="DESIGN.md section 7 (C13)",
     run_files=["Run/C13Run.v"],
     engines=[dict(cmd=["c13"], corr="Model.MetaKV.{mupdate,mget,mgetall,mgetallvalues,mlist,mlistdir,msnapshot} <-> kv.LFSM.Update/Lookup/PrepareSnapshot/SaveSnapshot/RecoverFromSnapshot, kv.MapStore")],
-    level_text="Theorems for all entry sequences: CAS outcome (success iff the supplied version is the key's current one, 0 for an absent key - repaired code; mismatch reports the current pair and leaves the store unchanged), fresh increasing versions over logs with increasing indices, refinement of all lookups to the plain map built by successful updates, exact and sorted glob listings, batching independence, snapshot round trip. Model compared with the real kv.LFSM (incl. its JSON snapshot) on random scenarios; Go side checks the property oracle after every step (get/exists per key, the whole store, listings and directory listings: no stored child or directory dropped - also directories holding keys only deeper down - nothing invented) and a second replica.",
+    level_text="Theorems for all entry sequences: CAS outcome (success iff the supplied version is the key's current one, 0 for an absent key - repaired code; mismatch reports the current pair and leaves the store unchanged), fresh increasing versions over logs with increasing indices, refinement of all lookups to the plain map built by successful updates, exact and sorted glob listings, batching independence, snapshot round trip. Model compared with the real kv.LFSM (incl. its JSON snapshot) on random scenarios; the real kv.RaftStore on a NodeHost (what Set/Delete return, the current pair on a mismatch) and escaped glob patterns against path.Match are checked as well; Go side checks the property oracle after every step (get/exists per key, the whole store, listings and directory listings: no stored child or directory dropped - also directories holding keys only deeper down - nothing invented) and a second replica.",
     level_note="Trusts: Coq kernel; genconst (result codes); correspondence run; path.Match modelled for patterns of literals and '*' only and List/ListDir for clean absolute paths only (all that callers use); JSON snapshot modelled as identity on content (exercised by the harness).",
     technique="Coq proof (refinement of a sorted association list to an abstract CAS map, induction over entry lists) + differential correspondence check against kv.LFSM",
     trusted=["Model/MetaKV.v hand-written model of storage/kv/raft.go + map.go; strings modelled as UTF-8 byte lists"],
@@ -100,7 +100,8 @@ PROPS["C02"] = dict(
     title="Transactions are atomic if/then/else: one branch, in order, all or nothing",
     design_ref="DESIGN.md section 7 (C02)",
     run_files=["Run/FsmRun.v"],
-    engines=[dict(cmd=["c02"], corr="Model.Cmd.{handle_txn,txn_compare,txn_ops,lookup_txn} via Model.Fsm.Update/f_lookup_txn <-> fsm.handleTxn, txnCompare, handleTxnOps, FSM.Lookup(TxnRequest)")],
+    engines=[dict(cmd=["c02"], corr="Model.Cmd.{handle_txn,txn_compare,txn_ops,lookup_txn} via Model.Fsm.Update/f_lookup_txn <-> fsm.handleTxn, txnCompare, handleTxnOps, FSM.Lookup(TxnRequest)"),
+             dict(cmd=["c10", "--txn"], summary="c10", corr="Model.Fsm (transactions) <-> table.ActiveTable.Txn over a simulated Raft host with real fsm.FSM replicas (the table layer between the API and the state machine)", timeout=900)],
     level_text="Theorems for all predicate and operation lists: branch selection by the conjunction of predicates on the pre-state (declarative semantics of single-key and range predicates), in-order execution with one response per operation, read-only transactions equal the read-only path and leave the state unchanged, and the encoded-store transaction equals the plain-map transaction at any position of any scenario; compared with the real FSM on transaction-heavy histories.",
     level_note="Trusts: Coq kernel; Pebble indexed batch/snapshot modelled as a working copy of the sorted map; correspondence run. Crash atomicity of the single commit is C04's.",
     technique="Coq proof (parametricity of handlers in the store, induction over operation lists) + differential correspondence check against fsm.FSM",
@@ -174,7 +175,7 @@ PROPS["C18"] = dict(
     run_files=["Run/C18Run.v", "Run/C07Run.v"],
     engines=[dict(cmd=["c18"], corr="Model.ProtoWire.{msg_enc,msg_dec,varint_enc,varint_dec} <-> regattaserver/encoding/proto Codec + regattapb *_vtproto.pb.go MarshalVT/UnmarshalVT"),
              dict(cmd=["c07", "--framing-only"], summary="c07", corr="Model.Framing <-> snapshot.snapshotFile/Writer/Reader", timeout=600)],
-    level_text="Theorems: varint and field-list encode/decode round trip for every well-formed field list (all wire types, nesting as byte fields, any sizes), decode into a recycled object equals decode into a fresh one, frames survive every chunking under any round-tripping compressor. The real registered codec is run on generated messages of the API/replication types (every oneof arm, absent vs empty, nil vs empty, 64-bit extremes) with bytes compared to the wire model's encoding of the reflected field tree, fresh and recycled receivers; the pooled Command as the code uses it (snapshot writer, then the replication worker's SEQUENCE); gzip/snappy/zstd under 16 goroutines (panics caught and reported); snapshot files through Writer/Reader at chunk sizes 1 B..1 MiB, length prefixes around the compressed format's block boundaries, large messages written from one reused buffer.",
+    level_text="Theorems: varint and field-list encode/decode round trip for every well-formed field list (all wire types, nesting as byte fields, any sizes), decode into a recycled object equals decode into a fresh one, frames survive every chunking under any round-tripping compressor. The real registered codec is run on generated messages of the API/replication types (every oneof arm, absent vs empty, nil vs empty, 64-bit extremes) with bytes compared to the wire model's encoding of the reflected field tree, fresh and recycled receivers; the pooled Command as the code uses it (snapshot writer, then the replication worker's SEQUENCE); gzip/snappy/zstd under 16 goroutines (panics caught and reported); snapshot files through Writer/Reader at chunk sizes 1 B..1 MiB, length prefixes around the compressed format's block boundaries, large messages written from one reused buffer, chunk streams read through plain Read calls with small buffers; requests in flight through a real regattaserver.NewServer (what the handler sees is what the client sent).",
     level_note="Trusts: Coq kernel; the schema layer (which Go field a number denotes, proto3 default omission, oneof) is reflected by the harness from the generated descriptors, not proved; compressor correctness and sync.Pool behaviour under the Go scheduler are exercised, not proved (PARTIAL).",
     technique="Coq proof (varint arithmetic, parser-with-fuel induction) + differential correspondence check of vtprotobuf bytes against the wire model, concurrency exercise of pooled compressors",
     trusted=["Model/ProtoWire.v hand-written model of the protobuf wire format", "Model/Framing.v"],
@@ -184,8 +185,9 @@ PROPS["C18"] = dict(
 PROPS["C11"] = dict(
     title="Writes through a follower are read-your-writes; waiting never wedges the node",
     design_ref="DESIGN.md section 7 (C11)",
-    run_files=["Run/C11Run.v"],
-    engines=[dict(cmd=["c11"], corr="Model.Queue.step + Model.Heap <-> storage.IndexNotificationQueue.Run, util/heap", timeout=900)],
+    run_files=["Run/C11Run.v", "Run/C05Run.v"],
+    engines=[dict(cmd=["c11"], corr="Model.Queue.step + Model.Heap <-> storage.IndexNotificationQueue.Run, util/heap", timeout=900),
+             dict(cmd=["c05", "--variant", "large backlog"], summary="c05", corr="what the apply path reports to the queue: a follower proposal is tagged with the leader index of its last command (Model.Replication.follows) <-> replication.worker.proposeBatch", timeout=900)],
     level_text="Heap ORDER invariant proved (New establishes it, Push and Pop keep it, the root is a minimum), carried over the whole table map for every completed event sequence, hence promptness: after a handled notification of leader index r nobody in that table's queue waits for a revision <= r. Theorems over all event sequences (adds with any revisions and tables, cancellations, notifications, sweeps, caller reads, length queries), per handler AND composed over the whole table map (GInv: C11_loop_never_wedges - from the initial state every event sequence with fresh waiter ids is handled to the end): no handler ever blocks or panics, every waiter receives at most one answer, an OK answer is preceded by a notification at or beyond the waiter's revision, an error answer by its cancellation, and a sweep leaves no cancelled waiter behind. The real queue (real 1 s ticker) and util/heap are compared with the model on event scripts and operation sequences; a real follower engine (applied-index reports feeding the queue) is taken through an operator reset with a waiter across it.",
     level_note="Trusts: Coq kernel; Go channel/select semantics abstracted to one event at a time (a send on a full capacity-1 channel blocks the loop); that the notified index implies the write is applied rests on C05.",
     technique="Coq proof (invariant over the event-loop state machine, permutation lemmas for the array heap) + differential correspondence check against the real queue under its real ticker",
@@ -248,7 +250,7 @@ PROPS["C14"] = dict(
     design_ref="DESIGN.md section 7 (C14)",
     run_files=["Run/C14Run.v", "Mutants/CatalogueMutants.v"],
     engines=[dict(cmd=["c14"], corr="Model.Catalogue.{cexec,to_start,to_stop} <-> table.Manager.createTable/incAndGetIDSeq/DeleteTable/GetTables, diffTables", timeout=900)],
-    level_text="Theorems for every interleaving of create/delete/restore/list calls (restores incl. streams that break off and retries) of any number of managers at single-store-operation granularity: ids given to created or restored tables are pairwise distinct, every id drawn from the sequence is above every id drawn before (inductive invariant over the id sequence's compare-and-set), a restore never re-uses the recovery id an interrupted attempt left behind (refuted for the re-using variant in Mutants/CatalogueMutants.v), undisturbed it succeeds and switches the table to the new id, an existing name is refused, the three steps of a creation succeed when undisturbed, the second of two racing creations of one name fails, the second of two racing deletions fails and a restore cannot resurrect a record deleted under it (repaired compare-and-set), listing is exact, diffTables starts/stops exactly the right shards, per-id isolation of table data. Real managers run over the real kv.LFSM CAS semantics behind a scheduler (all interleavings of call pairs + random schedules, incl. Restore with complete and interrupted streams; two waiting writes optionally applied by ONE LFSM.Update call; every listing compared with the records present at that moment), real diffTables on random inputs (against the model and a set oracle), and a real Manager on a NodeHost for emptiness of recreated tables, isolation, slash and prefix names, and a restore after an interrupted restore (new id, stream content only).",
+    level_text="Theorems for every interleaving of create/delete/restore/list calls (restores incl. streams that break off and retries) of any number of managers at single-store-operation granularity: ids given to created or restored tables are pairwise distinct, every id drawn from the sequence is above every id drawn before (inductive invariant over the id sequence's compare-and-set), a restore never re-uses the recovery id an interrupted attempt left behind (refuted for the re-using variant in Mutants/CatalogueMutants.v), undisturbed it succeeds and switches the table to the new id, an existing name is refused, the three steps of a creation succeed when undisturbed, the second of two racing creations of one name fails, the second of two racing deletions fails and a restore cannot resurrect a record deleted under it (repaired compare-and-set); a catalogue replica caught up by a snapshot agrees with the leader; '.' and '..' are names like any other; listing is exact, diffTables starts/stops exactly the right shards, per-id isolation of table data. Real managers run over the real kv.LFSM CAS semantics behind a scheduler (all interleavings of call pairs + random schedules, incl. Restore with complete and interrupted streams; two waiting writes optionally applied by ONE LFSM.Update call; every listing compared with the records present at that moment), real diffTables on random inputs (against the model and a set oracle), and a real Manager on a NodeHost for emptiness of recreated tables, isolation, slash and prefix names, and a restore after an interrupted restore (new id, stream content only).",
     level_note="Trusts: Coq kernel; genconst (tableIDsRangeStart); table names are path segments (names with '/' are rejected by the repaired code); emptiness of a new table rests on dragonboat giving a fresh shard id a fresh state machine directory (exercised on a real NodeHost, not proved); Restore's catalogue steps are part of the model and run interleaved with the other managers' calls on a real NodeHost (one per case); what the recovery shard then contains is C07's theorem.",
     technique="Coq proof (inductive invariant over an interleaving semantics of store programs, permutation reasoning on pending ids) + scheduler-controlled differential check of table.Manager",
     trusted=["Model/Catalogue.v hand-written model of the catalogue programs in storage/table/manager.go"],
@@ -260,7 +262,7 @@ PROPS["C16"] = dict(
     design_ref="DESIGN.md section 7 (C16)",
     run_files=["Run/C16Run.v"],
     engines=[dict(cmd=["c16"], corr="Model.Validate.{range_status,put_status,del_status,txn_status,create_status,delete_status} <-> regattaserver.KVServer/TablesServer/ReadonlyTablesServer + table.ActiveTable validators", timeout=900)],
-    level_text="Theorems over all requests (reduced to the features the validators inspect): every documented constraint yields its status class, an accepted request satisfies all of them, and the key/value limits hold on every path that can create a record including operations nested in transactions. The real KVServer + table.ActiveTable (over a simulated Raft host with real state machines) and the tables servers are run on an enumerated grid of field combinations and a malformed stream; status codes are compared with the model, the table content is read back after every rejection, panics are caught and reported; requests with extreme numeric fields run in a child process whose death is reported with the request it announced last; unknown tables with non-UTF-8 or control-character names are unknown tables.",
+    level_text="Theorems over all requests (reduced to the features the validators inspect): every documented constraint yields its status class, an accepted request satisfies all of them, and the key/value limits hold on every path that can create a record including operations nested in transactions. The real KVServer + table.ActiveTable (over a simulated Raft host with real state machines) and the tables servers are run on an enumerated grid of field combinations and a malformed stream; status codes are compared with the model, the table content is read back after every rejection, panics are caught and reported; requests with extreme numeric fields run in a child process whose death is reported with the request it announced last; unknown tables with non-UTF-8 or control-character names are unknown tables; on a real storage.Engine, names that only resemble the path of a table ('demo/', './demo', 'x/../demo') are unknown tables too.",
     level_note="PARTIAL: 'no request terminates the process' is exercised (enumerated grid + random garbage, panics caught), not proved - a theorem about total Gallina validators says nothing about Go panics. Requests are called on the server objects directly, not through a network listener (gRPC decoding is C18's codec). storage.Engine's table routing is re-implemented in the harness (three lines per method).",
     technique="Coq proof (case analysis of the validator decision functions) + enumerated differential check of the real servers' status codes and effects",
     trusted=["Model/Validate.v hand-written model of the validators in regattaserver/kv.go, tables.go and storage/table/table.go"],
@@ -272,7 +274,7 @@ PROPS["C17"] = dict(
     design_ref="DESIGN.md section 7 (C17)",
     run_files=["Run/C17Run.v"],
     engines=[dict(cmd=["c17"], corr="Model.Auth.{auth_func,intercept,server_config,verify_peer,accepts} <-> cmd.authFunc + auth interceptor wiring (cmd.createAPIServer), security.TLSInfo.ServerConfig", timeout=900)],
-    level_text="Theorems about regatta's decision logic: with a token configured a call passes only with the header '<bearer, any case> <exactly the token>' (every other string, prefix/suffix/case variants included, is refused), services without an override are unaffected, a trusted CA or client-cert-auth makes verified client certificates mandatory, CN/hostname options are exclusive, and acceptance implies a chain to the CA and exactly the allowed CN (resp. hostname validity) on the leaf of the first verified chain. A real API server built by cmd.createAPIServer is called over loopback on every method of the protected services (from the generated descriptors) with 15 header variants, and real TLS handshakes run against TLSInfo.ServerConfig() with harness-minted certificates over all option combinations; both compared with the model.",
+    level_text="Theorems about regatta's decision logic: with a token configured a call passes only with the header '<bearer, any case> <exactly the token>' (every other string, prefix/suffix/case variants included, is refused), services without an override are unaffected, a trusted CA or client-cert-auth makes verified client certificates mandatory, CN/hostname options are exclusive, and acceptance implies a chain to the CA and exactly the allowed CN (resp. hostname validity) on the leaf of the first verified chain. A real API server built by cmd.createAPIServer is called over loopback on every method of the protected services (from the generated descriptors) with 15 header variants, and real TLS handshakes run against TLSInfo.ServerConfig() with harness-minted certificates over all option combinations (incl. a CA that is only in the host's trust store); both compared with the model; endpoints built by createAPIServer for every TLS address scheme (https, unixs) refuse a plaintext client.",
     level_note="PARTIAL: chain verification and hostname matching are crypto/tls and crypto/x509 (inputs of the modelled decision, observed in real handshakes, not proved); the go-grpc-middleware interceptor is modelled from its source.",
     technique="Coq proof (string-splitting lemma for the bearer header, case analysis of the TLS option decision) + enumerated differential check against a real gRPC server and real TLS handshakes",
     trusted=["Model/Auth.v hand-written model of cmd.authFunc, the auth interceptor and security/tls.go"],
